@@ -18,6 +18,7 @@ pub fn generics(
     HashSet<GenericFunction>,
 )> {
     let mut types = HashSet::new();
+    let mut imported = vec![];
     let mut fields = HashSet::new();
     let mut functions = HashSet::new();
 
@@ -44,15 +45,19 @@ pub fn generics(
                             from,
                             import,
                             alias,
-                        } => from_import(from, import, alias)?.into_iter().for_each(|t| {
-                            types.insert(t);
-                        }),
+                        } => imported.append(&mut from_import(from, import, alias)?),
                         _ => {}
                     }
                 }
             }
             _ => return Err(vec![TypeErr::new(file.pos, "Expected file")]),
         }
+    }
+
+    // Imports only stand in for classes which are not defined in any of the given files.
+    // Otherwise, the result depends on the order in which files are presented.
+    for class in imported {
+        types.insert(class); // no-op if already present
     }
 
     Ok((types, fields, functions))
